@@ -49,7 +49,7 @@ Proof.
   intros Hne. induction ids as [|id ids IH]; intros acc; cbn [search_ids pure_hits].
   - rewrite app_nil_r. reflexivity.
   - destruct (alookup id (st_facts s)) as [fact|] eqn:Hp; [|apply IH].
-    unfold expire. rewrite (Hne id fact Hp).
+    unfold expire. rewrite (Hne id fact Hp). cbv beta iota delta [expire_stops].
     destruct (core_match_dw_ok x fact) as [r Hr]. rewrite Hr.
     destruct r as [|b bss]; [apply IH|].
     rewrite IH. cbn [rev]. rewrite <- app_assoc. reflexivity.
